@@ -33,6 +33,8 @@ def main(argv=None):
     except ValueError:
         seed = 1
     _assert_tree()
+    import logging
+    logging.disable(logging.CRITICAL)      # the repository logs every packet; warnings would flood stderr
     prop = args.prop.upper()
     try:
         mod = importlib.import_module("vf.props.%s" % prop.lower())
